@@ -88,6 +88,17 @@ def runReuse (t : List String) : String :=
       [sa] ++ b2.calls.map fun cl => match cl.state with | .done _ => "ok" | .timedOut => "timeout" | .waiting => "waiting")
   | _ => "bad-op"
 
+/-- `rqlate <n>`: per round a call that times out, then on the same shared state a second call during which the late
+    reply to the first arrives (dropped: `c04_late_reply_dropped`) before its own, then a third. -/
+def runLate (t : List String) : String :=
+  match t with
+  | [n] => ",".intercalate ((List.range (nat! n)).flatMap fun _ =>
+      let s := ((Rq.run [.call]).step (.timeout 0)).call
+      let s := (s.arrive { reqId := some 0, payload := [] }).arrive { reqId := some 1, payload := [] }
+      let s := (s.call).arrive { reqId := some 2, payload := [] }
+      s.calls.map fun cl => match cl.state with | .done _ => "ok" | .timedOut => "timeout" | .waiting => "waiting")
+  | _ => "bad-op"
+
 /-- `rqstall <n> <kib>`: no reply ever arrives: every call times out (`c04_timeout`), one after the other -/
 def runStall (t : List String) : String :=
   match t with
